@@ -39,7 +39,12 @@ def build_snapshot(shape, rng):
         frames.append(StackFrame('/app/f%d%s.py' % (i, t if shape['text'] in ('non_bmp', 'surrogate') else ''),
                                  'f%d.py' % i, 'fn%d' % i, 10 + i, [VariableId('1', 'v' + t)] if n else [],
                                  ('Cls' + t) if shape['class_name'] == 'given' else None, app_frame=(i == 0)))
-    tp = TracePointConfig('tp-wire', 'path' + t + '.py', 42, {'fire_count': '3', 'k': t}, ['w1', 'w' + t], [])
+    args = {'fire_count': '3', 'k': t}
+    if shape['attrs'] == 'awkward':
+        # a tracepoint registered in code whose arguments were given as numbers / booleans, not as text: the limiter
+        # honours them, and the wire format (text -> text) carries their text
+        args = {'fire_count': 3, 'fire_period': 0, 'k': t, 'on': True, 'ratio': 0.5}
+    tp = TracePointConfig('tp-wire', 'path' + t + '.py', 42, args, ['w1', 'w' + t], [])
     snap = EventSnapshot(tp, 1_700_000_000_123_456_789, Resource({'service.name': 'svc', 'res': t, 'n': 5}), frames, table)
     w = shape['watches']
     if w in ('good', 'good_and_error'):
@@ -125,7 +130,8 @@ def expected_image(s):
     return {
         'ID': s.id.to_bytes(16, 'big'),
         'tp': {'ID': s.tracepoint.id, 'path': e(s.tracepoint.path), 'line': s.tracepoint.line_no,
-               'args': {k: e(v) for k, v in s.tracepoint.args.items()}, 'watches': [e(w) for w in s.tracepoint.watches]},
+               'args': {k: e(v if isinstance(v, str) else str(v)) for k, v in s.tracepoint.args.items()},
+               'watches': [e(w) for w in s.tracepoint.watches]},
         'table': {k: {'type': e(v.type), 'value': e(v.value), 'hash': v.hash, 'children': [vid(c) for c in v.children],
                       'truncated': bool(v.truncated)} for k, v in s.var_lookup.items()},
         'ts': s.ts_nanos, 'duration': s.duration_nanos,
